@@ -285,6 +285,11 @@ def change_menu(mname, f, level):
             cf({'max_length': 30 if ml != 30 else 20})
             if level != 'lite':
                 cf({'max_length': 10 if ml != 10 else 20})
+                if a.get('null'):
+                    # an initial value that has nothing to do: the column
+                    # stays nullable, its NULLs must stay
+                    cf({'max_length': 30 if ml != 30 else 20},
+                       INITIALS['Char'][0])
                 # the same change with the (unchanged) field type restated
                 cf({'max_length': 30 if ml != 30 else 20}, None, t)
         if t == 'Decimal':
